@@ -265,7 +265,7 @@ Definition rev_step (d : data) (p : params) (k : calc) (all_nodes : bool) (st : 
             let '(reached1, tent1) :=
               if negb all_nodes && negb (r_reached st) &&
                  match row_of (c_from c) (k_accfp k) with Some r => negb (fp_time r =? -1) | None => false end
-              then (true, c_dep c) else (r_reached st, r_tent st) in
+              then (true, c_dep c - minw) else (r_reached st, r_tent st) in
             let '(taur1, steps1, acc1) :=
               fold_left (rev_fp_step p k c minw (o_exit ov1)) (rfp_of d (c_from c))
                         (r_taur st, r_steps st, r_acc st) in
